@@ -12,6 +12,7 @@ import SdnsVerif.Model.Packer
   `n` = nil; equal ids = the same pointer), a question `<packed len|E>:<uncompressed len>`.
   The packed lengths are what the library produced for each piece; the model's `tryPack`
   runs over the primitive "emit that many bytes if they fit" → `handled=t len=<n>` | `handled=f`.
+* `pool own <events>` → `dup=f|t`: the ownership model run over the endings `ok|err|werr|panic|fail|decl`
 * `pool inspect` → `clean` (the model's pool invariant)
 * everything else (`msg new|pack|clone|write`, `pool dirty`, `conc …`) is judged by the Go oracle only.
 -/
@@ -159,6 +160,26 @@ def step (st : State) (w : List String) : State × String :=
     | some o => (st, o)
     | none => (st, "bad-op")
   | "msg" :: _ => (st, "unmodelled")
+  -- `pool own <events>`: each earlier pack takes the state on top of the pool (or a new one) and ends
+  -- through the named exit; afterwards no state may rest in the pool twice
+  | ["pool", "own", evs] =>
+    let names := if evs == "-" then [] else evs.splitOn ","
+    let exitOf (n : String) : Option (Option Exit) :=
+      if n == "ok" then some (some .consumed) else if n == "err" || n == "werr" then some (some .consumerError)
+      else if n == "panic" then some (some .consumerPanic) else if n == "fail" then some (some .packFailed)
+      else if n == "decl" then some none else none
+    match names.mapM exitOf with
+    | none => (st, "bad-op")
+    | some exits =>
+      let s := exits.foldl (fun (s : Own) (e : Option Exit) => match e with
+        | none => s
+        | some x =>
+          let s1 := ownStep tryPackPuts s (.get s.pool.head?)
+          ownStep tryPackPuts s1 (.finish (s1.borrowed.headD 0) x)) {}
+      let rec dupB : List Nat → Bool
+        | [] => false
+        | x :: t => t.contains x || dupB t
+      (st, s!"dup={boolStr (dupB s.pool)}")
   -- every state resting in the pool is `Clean` (theorem `pool_reuse_clean`)
   | ["pool", "inspect"] => (st, "clean")
   | "pool" :: _ => (st, "unmodelled")
